@@ -233,11 +233,11 @@ def check_wrapping(ctx):
     fi = ctx.fn(f'{PW}.wrapped_sites')
     it = ctx.entry(fi.qualname)
     tuples = []
-    for r in ast.walk(fi.node):
-        if isinstance(r, ast.Return) and r.value is not None:
-            for n in ast.walk(r.value):
-                if isinstance(n, ast.Tuple) and len(n.elts) == 3 and isinstance(n.ctx, ast.Load):
-                    tuples.append(n)
+    for n in ast.walk(fi.node):
+        if isinstance(n, ast.Tuple) and len(n.elts) == 3 and isinstance(n.ctx, ast.Load) and any(
+                isinstance(e, ast.BinOp) and isinstance(e.op, ast.Mod) or (isinstance(e, ast.Call) and norm_text(e.func).split('.')[-1] in ('mod', 'remainder'))
+                for e in n.elts):
+            tuples.append(n)
     if not tuples:
         ctx.ob('R3', fi, 'wrapped voxel tuple', None, 'wrapped coordinate tuple not recognised')
     for t in tuples:
@@ -262,10 +262,14 @@ def check_wrapping(ctx):
     ff = ctx.fn(f'{PW}.frac_sites')
     rets = [r.value for r in ast.walk(ff.node) if isinstance(r, ast.Return) and r.value is not None]
     defs_f = def_map(ff.node)
+    from .C08 import centre_formula
+    from .common import parse_sx
+    itf = ctx.entry(ff.qualname)
     for r in rets:
-        t = norm_text(expand(r, defs_f)).replace(' ', '')
-        ok = t in ('(np.array(self.wrapped_sites())+0.5)/np.array(self.dims)',)
-        raw = t in ('(np.array(self.sites)+0.5)/np.array(self.dims)',)
+        t_ = parse_sx(itf.sx(r), full=True)
+        cf = centre_formula(t_) if t_ is not None else None
+        ok = cf is not None and cf[0] == 0.5 and cf[1] == 'self.wrapped_sites()' and cf[2] == 'self.dims'
+        raw = cf is not None and cf[1] == 'self.sites' and cf[2] == 'self.dims'
         ctx.ob('R3', ff, r, True if ok else (False if raw else None), 'voxel centres of the wrapped sites / dims' if ok else
                ('fractional coordinates are computed from the unwrapped voxel indices: for a percolating path (which extends into the next '
                 'cell) they lie outside [0, 1)' if raw else 'fractional site formula not recognised'))
